@@ -930,6 +930,9 @@ func (s *Session) BuildFiles(filenames []string, pkgObj string, cwd string) erro
 			pkg.JSFiles = append(pkg.JSFiles, *jsFile)
 		}
 	}
+	// The order in which the files were listed on the command line must not
+	// affect the output, same as for the package directory builds.
+	sort.Slice(pkg.JSFiles, func(i, j int) bool { return pkg.JSFiles[i].Path < pkg.JSFiles[j].Path })
 
 	archive, err := s.BuildProject(pkg)
 	if err != nil {
